@@ -27,16 +27,17 @@ type Script struct {
 
 // Trace is what was observed.
 type Trace struct {
-	Spin     bool // the case exceeded its real-time budget twice (a goroutine spins); only Deadlock is set then
-	WStart   []int64
-	WDone    []int64
-	Recv     []int64
-	Vals     []int
-	CloseAt  int64 // producer closed the input
-	ClosedAt int64 // consumer saw the output closed (-1 = never)
-	NewErr   string
-	Deadlock string
-	Leaked   []string
+	HarnessPanic string // a panic of the harness itself (never blamed on the library)
+	Spin         bool   // the case exceeded its real-time budget twice (a goroutine spins); only Deadlock is set then
+	WStart       []int64
+	WDone        []int64
+	Recv         []int64
+	Vals         []int
+	CloseAt      int64 // producer closed the input
+	ClosedAt     int64 // consumer saw the output closed (-1 = never)
+	NewErr       string
+	Deadlock     string
+	Leaked       []string
 }
 
 func (s Script) alwaysReady() bool {
@@ -104,9 +105,7 @@ func execute1(t *testing.T, s Script, leakScan bool, budget time.Duration) Trace
 		return Trace{Spin: true, Deadlock: res.Deadlock, ClosedAt: -1}
 	}
 	tr.Deadlock = res.Deadlock
-	if res.Panic != "" {
-		tr.Deadlock = "harness panic: " + res.Panic
-	}
+	tr.HarnessPanic = res.Panic
 	return tr
 }
 
@@ -160,7 +159,7 @@ func CheckC12(s Script, tr Trace) error {
 	if tr.NewErr != "" {
 		return fmt.Errorf("New rejected a valid rate: %s", tr.NewErr)
 	}
-	if tr.Deadlock != "" {
+	if tr.Deadlock != "" && tr.ClosedAt < 0 {
 		return fmt.Errorf("run did not complete (output never closed / deadlock): %s", firstLine(tr.Deadlock))
 	}
 	n := len(s.Gaps)
